@@ -326,10 +326,76 @@ def r14_10(prog, tab):
     return r
 
 
+def r14_11(prog, tab):
+    """A slot of an array of owned buffers is claimed before it can be filled.  Pattern: a cleanup loop releases
+    `A[n].<field>` for n below a local counter C.  Wherever the address of the slot at the counter, `&A[C]`, is stored in
+    a variable that a later call receives (the collecting callback's key), C must be incremented on every path from
+    that store to the call: otherwise a failure inside the call leaves the slot that was being filled outside the
+    cleanup loop's range and its buffer leaks."""
+    from .c15 import must_pass
+    r = Rule("R14.11", "the counter that bounds the cleanup of a slot array is advanced before the slot at the counter can be filled", floor=1)
+    for f in sorted(prog.funcs.values(), key=lambda f: f.key):
+        # cleanup loops: free(A[n].field) inside a loop whose condition compares n with a local counter C
+        pairs = set()
+        for h, body in f.loops():
+            hb = f.blocks[h]
+            for bid in body:
+                for e in f.blocks[bid].ev:
+                    if e["k"] == "call" and e.get("callee") == "free" and e["args"]:
+                        t = strip_casts(e["args"][0]["tree"])
+                        if isinstance(t, list) and t and t[0] == "member":
+                            sub = strip_casts(t[1])
+                            if isinstance(sub, list) and sub and sub[0] == "sub" and is_var(strip_casts(sub[1])) and is_var(strip_casts(sub[2])):
+                                A, nvar = strip_casts(sub[1])[1], strip_casts(sub[2])[1]
+                                for bb in body:
+                                    tb = f.blocks[bb]
+                                    if tb.term and "cond" in tb.term:
+                                        c = strip_casts(tb.term["cond"]["tree"])
+                                        if isinstance(c, list) and c and c[0] == "bin" and c[1] in ("<", "!=") and is_var(strip_casts(c[2]), nvar) and is_var(strip_casts(c[3])):
+                                            pairs.add((A, strip_casts(c[3])[1]))
+        for A, C in sorted(pairs):
+            n = 0
+            for b, i, e in f.events("assign"):
+                if e.get("op") != "=" or "rhs" not in e or not e.get("base_id") or e.get("lhs") != e.get("base"):
+                    continue
+                t = strip_casts(e["rhs"]["tree"])
+                if not (isinstance(t, list) and t and t[0] == "un" and t[1] == "&"):
+                    continue
+                sub = strip_casts(t[2])
+                if not (isinstance(sub, list) and sub and sub[0] == "sub" and is_var(strip_casts(sub[1]), A) and is_var(strip_casts(sub[2]), C)):
+                    continue
+                holder = e["base_id"]
+                n += 1
+                key = "%s=&%s[%s]#%d" % (holder.split("@")[0], A.split("@")[0], C.split("@")[0], n)
+
+                def bumps(y, C=C):
+                    return y["k"] == "assign" and y.get("base_id") == C and y.get("op") in ("++", "++post", "+=")
+                bad = None
+                for b2, i2, x in f.calls():
+                    if x.get("callee") in ("memset", "free") or not any(is_var(strip_casts(a.get("tree")), holder) for a in x.get("args", [])):
+                        continue
+                    if b2.id == b.id and i2 > i:
+                        okp = any(bumps(y) for y in b.ev[i + 1:i2])
+                    elif b2.id not in f.reachable_from([b.id]) or b2.id == b.id:
+                        continue
+                    else:
+                        okp = any(bumps(y) for y in b.ev[i + 1:]) or all(must_pass(f, s_, b2.id, i2, bumps) for s_ in b.succs())
+                    if not okp:
+                        bad = x
+                        break
+                if bad is None:
+                    r.ok(f, key, "%s is advanced before any call receives the slot" % C.split("@")[0], e["line"])
+                else:
+                    r.bad(f, key, "the slot `%s[%s]` is handed to the call at line %s before %s is advanced: when that call fails after allocating "
+                                  "into the slot, the cleanup loop (bounded by %s) skips it and the buffer leaks" % (
+                                      A.split("@")[0], C.split("@")[0], bad.get("line"), C.split("@")[0], C.split("@")[0]), e["line"])
+    return r
+
+
 def run(ctx):
     prog = ctx.prog("S")
     tab = load_tables("c14")
-    return r14_1_2_5(prog, tab) + [r14_3(prog, tab), r14_4(prog, tab), r14_6(prog, tab), r14_7(prog, tab), r14_8(prog, tab), r14_9(prog, tab), r14_10(prog, tab)]
+    return r14_1_2_5(prog, tab) + [r14_3(prog, tab), r14_4(prog, tab), r14_6(prog, tab), r14_7(prog, tab), r14_8(prog, tab), r14_9(prog, tab), r14_10(prog, tab), r14_11(prog, tab)]
 
 
 def thorough(ctx):
